@@ -19,6 +19,8 @@ def run(ctx):
         "prefix, associated-data edits (flip, truncate, extend, nil/empty vs non-empty, another ciphertext's AD), swapped "
         "tag/body, zero/ones/reversed tag, spliced tag/nonce of another ciphertext of the same key, envelope: encrypted-DEK "
         "length field values around 0, |encDEK|+-1, |ct|-4, 4096/4097, 2^31, 2^32-1, little-endian, another envelope's DEK; "
+        "long (>= 1 KiB body and AD) AES-GCM-SIV ciphertexts: the same difference XORed into every pair of blocks of a "
+        "64-byte group of body and of AD (bulk-path POLYVAL forgeries); "
         "and byte strings of every length 0..minimum+2 (zero/random/valid prefix). Each Decrypt call is judged by TLC: "
         "accept => (ct, ad) in the produced set of the key; verdict and plaintext = reference Open; error => no plaintext; "
         "a panic anywhere is a violation")
